@@ -464,6 +464,49 @@ class Dmn(Family):
         steps += order + [st("proxy_probe", [rng.below(2)]), st("panics")]
         return [VL(cfg), VL(steps + [st("teardown")])]
 
+    def log_keepalive_history(self, rng):
+        """C15: the accepted log stays in force while the memory table is empty in between (SET_LOG_BASE before the
+        first table, or the last region removed and memory added again): writes into the memory installed afterwards
+        must still be recorded"""
+        nq, cfg, feat, masks = self.cfg(rng)
+        steps = [st("set_protocol_features", [W.PF_ALL])]
+        for f, sz in ((1, 0x8000), (2, 0x8000), (3, 0x8000), (4, 0x40000)):
+            steps.append(st("file_size", [f, sz]))
+        size = rng.choice([1, 2, 8, 0x1000])
+        off = rng.choice([0, 0x1000, 0x3000])
+        pages = min(size * 8, 16)
+        def reg(i, f):
+            g = 0x1000 * rng.below(max(1, pages - 1))
+            return [g, 0x1000 * rng.choice([1, 1, 2]) if g + 0x2000 <= pages * 0x1000 else 0x1000, 0x7f0000000000 + 0x100000 * i, rng.choice([0, 0x1000]), f]
+        r1 = reg(0, 1)
+        k = rng.below(3)
+        if k == 0:
+            # the log is accepted while there is no memory at all
+            steps.append(st("set_log_base", [size, off, 4]))
+            steps.append(st("set_mem_table", [], b"", [r1]))
+            cur = [r1]
+        else:
+            steps.append(st("set_mem_table", [], b"", [r1]))
+            steps.append(st("set_log_base", [size, off, 4]))
+            steps.append(st("write_mem", [r1[0] + 8], rng.bytes(8)))
+            if k == 1:
+                steps.append(st("rem_mem", r1))
+            else:
+                steps.append(st("set_mem_table", [], b"", []))
+            r2 = reg(1, 2)
+            steps.append(st("add_mem", r2))
+            cur = [r2]
+        steps.append(st("regions"))
+        for r in cur:
+            steps.append(st("write_mem", [r[0] + rng.choice([0, 8, r[1] - 8])], rng.bytes(8)))
+        words = sorted({(r[0] // 4096) // 8 for r in cur} | {((r[0] + r[1] - 1) // 4096) // 8 for r in cur})
+        for w in words[:4]:
+            steps.append(st("guest_read", [4, max(0, off + w - 1), 4]))
+        steps.append(st("guest_read", [4, off, 4]))
+        steps.append(st("backend_log"))
+        steps.append(st("panics"))
+        return [VL(cfg), VL(steps + [st("teardown")])]
+
     def resize_history(self, rng):
         # a ring is resized several times, down and up again within the backend's maximum, with the odd refused size
         nq, cfg, feat, masks = self.cfg(rng)
@@ -511,6 +554,7 @@ class Dmn(Family):
         out += [(self.adv_history(rng), "adversarial") for _ in range(n)]
         out += [(self.beq_history(rng), "backend-req-channel") for _ in range(n // 8)]
         out += [(self.resize_history(rng), "ring-resize") for _ in range(n // 8)]
+        out += [(self.log_keepalive_history(rng), "log-keepalive") for _ in range(n // 8)]
         # routing: every mask set of the table x both vring kinds (complete), plus random mask sets
         for nq, sets in MASKSETS.items():
             for masks in sets:
